@@ -1,11 +1,11 @@
 import NixModel.Lemmas.C04Graph
 
 /-!
-# C04 — reachability from the root, before and after `deleteAll`
+# C04 — reachability from the root, before and after `deleteObjs`
 
 nixio (and every reader of the file) can only see what is reachable from `/` through hard links.
-`Reach g k`: node `k` is reachable in `g`. `ReachAvoid g ids k`: reachable through links none of
-whose targets carries an id of `ids`. After `deleteAll ids` the two coincide — so an object that
+`Reach g k`: node `k` is reachable in `g`. `ReachAvoid g ds k`: reachable through links none of
+whose targets is one of the objects `ds`. After `deleteObjs ds` the two coincide — so an object that
 was reachable only through deleted objects (owned by them) is unreachable afterwards, and every
 other object stays reachable.
 -/
@@ -16,45 +16,45 @@ inductive Reach (g : Graph) : Nat → Prop
   | root : Reach g 0
   | step {p k : Nat} (name : String) : Reach g p → (name, k) ∈ g.links p → Reach g k
 
-inductive ReachAvoid (g : Graph) (ids : List String) : Nat → Prop
-  | root : ReachAvoid g ids 0
+inductive ReachAvoid (g : Graph) (ds : List Nat) : Nat → Prop
+  | root : ReachAvoid g ds 0
   | step {p k : Nat} (name : String) :
-      ReachAvoid g ids p → (name, k) ∈ g.links p → doomed g ids k = false → ReachAvoid g ids k
+      ReachAvoid g ds p → (name, k) ∈ g.links p → doomed ds k = false → ReachAvoid g ds k
 
-theorem reach_deleteAll_iff (g : Graph) (ids : List String) (k : Nat) :
-    Reach (g.deleteAll ids) k ↔ ReachAvoid g ids k := by
+theorem reach_deleteObjs_iff (g : Graph) (ds : List Nat) (k : Nat) :
+    Reach (g.deleteObjs ds) k ↔ ReachAvoid g ds k := by
   constructor
   · intro h
     induction h with
     | root => exact .root
     | step name _ hl ih =>
-      have := (mem_deleteAll_links g ids _ _).mp hl
+      have := (mem_deleteObjs_links g ds _ _).mp hl
       exact .step name ih this.1 this.2
   · intro h
     induction h with
     | root => exact .root
     | step name _ hl hd ih =>
-      exact .step name ih ((mem_deleteAll_links g ids _ _).mpr ⟨hl, hd⟩)
+      exact .step name ih ((mem_deleteObjs_links g ds _ _).mpr ⟨hl, hd⟩)
 
-theorem reachAvoid_reach {g : Graph} {ids : List String} {k : Nat} (h : ReachAvoid g ids k) :
+theorem reachAvoid_reach {g : Graph} {ds : List Nat} {k : Nat} (h : ReachAvoid g ds k) :
     Reach g k := by
   induction h with
   | root => exact .root
   | step name _ hl _ ih => exact .step name ih hl
 
-/-- a node other than the root that carries a deleted id is unreachable afterwards -/
-theorem doomed_unreachable (g : Graph) (ids : List String) (k : Nat) (hk : k ≠ 0)
-    (hd : doomed g ids k = true) : ¬ Reach (g.deleteAll ids) k := by
+/-- a deleted object other than the root is unreachable afterwards -/
+theorem doomed_unreachable (g : Graph) (ds : List Nat) (k : Nat) (hk : k ≠ 0)
+    (hd : doomed ds k = true) : ¬ Reach (g.deleteObjs ds) k := by
   intro h
-  rw [reach_deleteAll_iff] at h
+  rw [reach_deleteObjs_iff] at h
   cases h with
   | root => exact hk rfl
   | step name _ _ hnd => rw [hd] at hnd; cases hnd
 
 /-- nothing becomes reachable by a deletion -/
-theorem reach_deleteAll_sub (g : Graph) (ids : List String) (k : Nat)
-    (h : Reach (g.deleteAll ids) k) : Reach g k :=
-  reachAvoid_reach ((reach_deleteAll_iff g ids k).mp h)
+theorem reach_deleteObjs_sub (g : Graph) (ds : List Nat) (k : Nat)
+    (h : Reach (g.deleteObjs ds) k) : Reach g k :=
+  reachAvoid_reach ((reach_deleteObjs_iff g ds k).mp h)
 
 /-! ## reachability through explicit paths (the reading "every path to `k` runs through a deleted
 object") -/
@@ -87,9 +87,9 @@ theorem reach_of_path {g : Graph} {a k : Nat} {ks : List Nat} (hp : PathFrom g a
   | nil => exact id
   | cons name hl _ ih => exact fun ha => ih (.step name ha hl)
 
-theorem reachAvoid_of_path {g : Graph} {ids : List String} {a k : Nat} {ks : List Nat}
+theorem reachAvoid_of_path {g : Graph} {ds : List Nat} {a k : Nat} {ks : List Nat}
     (hp : PathFrom g a ks k) :
-    ReachAvoid g ids a → (∀ m ∈ ks, doomed g ids m = false) → ReachAvoid g ids k := by
+    ReachAvoid g ds a → (∀ m ∈ ks, doomed ds m = false) → ReachAvoid g ds k := by
   induction hp with
   | nil => exact fun ha _ => ha
   | cons name hl _ ih =>
@@ -106,8 +106,8 @@ theorem reach_iff_path (g : Graph) (k : Nat) : Reach g k ↔ ∃ ks, PathFrom g 
   · rintro ⟨ks, hp⟩
     exact reach_of_path hp .root
 
-theorem reachAvoid_iff_path (g : Graph) (ids : List String) (k : Nat) :
-    ReachAvoid g ids k ↔ ∃ ks, PathFrom g 0 ks k ∧ ∀ m ∈ ks, doomed g ids m = false := by
+theorem reachAvoid_iff_path (g : Graph) (ds : List Nat) (k : Nat) :
+    ReachAvoid g ds k ↔ ∃ ks, PathFrom g 0 ks k ∧ ∀ m ∈ ks, doomed ds m = false := by
   constructor
   · intro h
     induction h with
@@ -124,21 +124,21 @@ theorem reachAvoid_iff_path (g : Graph) (ids : List String) (k : Nat) :
     exact reachAvoid_of_path hp .root hall
 
 /-- **owned objects become unreachable**: if every path of links from `/` to `k` visits a node
-that carries one of the deleted ids, `k` is unreachable after `deleteAll` -/
-theorem owned_unreachable (g : Graph) (ids : List String) (k : Nat)
-    (hown : ∀ ks, PathFrom g 0 ks k → ∃ m ∈ ks, doomed g ids m = true) :
-    ¬ Reach (g.deleteAll ids) k := by
+that is one of the deleted objects, `k` is unreachable after `deleteObjs` -/
+theorem owned_unreachable (g : Graph) (ds : List Nat) (k : Nat)
+    (hown : ∀ ks, PathFrom g 0 ks k → ∃ m ∈ ks, doomed ds m = true) :
+    ¬ Reach (g.deleteObjs ds) k := by
   intro h
-  rw [reach_deleteAll_iff, reachAvoid_iff_path] at h
+  rw [reach_deleteObjs_iff, reachAvoid_iff_path] at h
   obtain ⟨ks, hp, hall⟩ := h
   obtain ⟨m, hm, hd⟩ := hown ks hp
   rw [hall m hm] at hd
   cases hd
 
-/-- **everything else stays reachable**: a path that visits no node with a deleted id survives -/
-theorem other_stays_reachable (g : Graph) (ids : List String) (k : Nat) (ks : List Nat)
-    (hp : PathFrom g 0 ks k) (hall : ∀ m ∈ ks, doomed g ids m = false) :
-    Reach (g.deleteAll ids) k :=
-  (reach_deleteAll_iff g ids k).mpr ((reachAvoid_iff_path g ids k).mpr ⟨ks, hp, hall⟩)
+/-- **everything else stays reachable**: a path that visits no deleted object survives -/
+theorem other_stays_reachable (g : Graph) (ds : List Nat) (k : Nat) (ks : List Nat)
+    (hp : PathFrom g 0 ks k) (hall : ∀ m ∈ ks, doomed ds m = false) :
+    Reach (g.deleteObjs ds) k :=
+  (reach_deleteObjs_iff g ds k).mpr ((reachAvoid_iff_path g ds k).mpr ⟨ks, hp, hall⟩)
 
 end Nix.Store.C04
